@@ -148,6 +148,7 @@ type announce struct {
 
 type config struct {
 	Mode     string          `json:"mode"`
+	Alpha    string          `json:"alpha"`
 	Depth    int             `json:"depth"`
 	Docs     int             `json:"docs"`
 	MaxDev   int             `json:"maxDev"`
@@ -375,8 +376,23 @@ func panicExcerpt(stderr string) string {
 
 // ---------------------------------------------------------------- phases
 
+// phase: all histories of one depth over one alphabet. Alphabets: "full" = 25 messages
+// per document (open x7 contents, change x7, change repeating the version x3,
+// change without content changes, close, definition x6 positions); "core8"/"core6" =
+// one document, the two related contents valid/swapped only (for the deeper histories).
 type phase struct {
+	Alpha               string
 	Depth, Docs, MaxDev int
+}
+
+func (ph phase) alphabetSize() int {
+	switch ph.Alpha {
+	case "core8":
+		return 8
+	case "core6":
+		return 6
+	}
+	return 25 * ph.Docs
 }
 
 type agg struct {
@@ -515,9 +531,9 @@ func (a *agg) flush() {
 
 // runPhase explores every history of one depth on n processes.
 func (a *agg) runPhase(bin string, ph phase, n int, deadline time.Time) {
-	cfg := config{Mode: "explore", Depth: ph.Depth, Docs: ph.Docs, MaxDev: ph.MaxDev, N: n, Only: -1, Dead: a.dead, Deadline: deadline.UnixMilli()}
+	cfg := config{Mode: "explore", Alpha: ph.Alpha, Depth: ph.Depth, Docs: ph.Docs, MaxDev: ph.MaxDev, N: n, Only: -1, Dead: a.dead, Deadline: deadline.UnixMilli()}
 	data, _ := json.Marshal(cfg)
-	cfgPath := filepath.Join(workDir(), fmt.Sprintf("phase-d%d-docs%d.json", ph.Depth, ph.Docs))
+	cfgPath := filepath.Join(workDir(), fmt.Sprintf("phase-%s-d%d-docs%d.json", ph.Alpha, ph.Depth, ph.Docs))
 	os.WriteFile(cfgPath, data, 0o644)
 	env := []string{"GOMAXPROCS=1", "GOGC=800"}
 	var newDead [][]string
@@ -600,8 +616,8 @@ func (a *agg) runPhase(bin string, ph phase, n int, deadline time.Time) {
 	a.mu.Lock()
 	a.dead = append(a.dead, newDead...)
 	if a.cappedShards > 0 {
-		a.c.Capped(fmt.Sprintf("budget: depth %d over %d document(s): %d of %d shards stopped early; histories from index %d (of %d) on are only partly explored",
-			ph.Depth, ph.Docs, a.cappedShards, n, a.cappedFirst, ipow(20*ph.Docs, ph.Depth)))
+		a.c.Capped(fmt.Sprintf("budget: alphabet %s, depth %d over %d document(s): %d of %d shards stopped early; histories from index %d (of %d) on are only partly explored",
+			ph.Alpha, ph.Depth, ph.Docs, a.cappedShards, n, a.cappedFirst, ipow(ph.alphabetSize(), ph.Depth)))
 	}
 	a.cappedShards, a.cappedFirst = 0, -1
 	a.mu.Unlock()
@@ -662,7 +678,7 @@ func (a *agg) racePass(bin string, depth, docs, reps, n int, deadline time.Time)
 	logDir := filepath.Join(workDir(), "race-logs")
 	os.RemoveAll(logDir)
 	os.MkdirAll(logDir, 0o755)
-	cfg := config{Mode: "race", Depth: depth, Docs: docs, N: n, Only: -1, Dead: a.dead, Reps: reps, Deadline: deadline.UnixMilli()}
+	cfg := config{Mode: "race", Alpha: "full", Depth: depth, Docs: docs, N: n, Only: -1, Dead: a.dead, Reps: reps, Deadline: deadline.UnixMilli()}
 	data, _ := json.Marshal(cfg)
 	cfgPath := filepath.Join(workDir(), "race.json")
 	os.WriteFile(cfgPath, data, 0o644)
@@ -748,8 +764,9 @@ func firstN(s []string, n int) []string {
 // ---------------------------------------------------------------- run
 
 func run(c *core.Ctx) {
-	c.Rule("histories = all sequences over the alphabet {open(d,c), change(d,c), change(d, no content changes), close(d), definition(d,pos)}, " +
-		"d in {A,B}, 6 contents, 6 position kinds, enumerated by depth (shortest first, index order); every history is run under every schedule " +
+	c.Rule("histories = all sequences over the alphabet {open(d,c), change(d,c), change repeating the version(d,c'), change(d, no content changes), close(d), definition(d,pos)}, " +
+		"d in {A,B}, 7 contents, 6 position kinds, versions assigned per document (restart at 1 on every open, +1 per change), enumerated by depth " +
+		"(shortest first, index order), plus deeper histories over small one-document alphabets (core8, core6) built on two contents that differ in where identifiers are declared; every history is run under every schedule " +
 		"of the three thread kinds (client sender, client receiver, server handlers at the ls.VerifPoint hooks) that deviates from the default " +
 		"schedule in at most maxDev decisions. A history is non-trivial when some message acts on a document the reference model holds at that moment. " +
 		"Histories that extend a history on which the server process died are skipped.")
@@ -777,18 +794,18 @@ func run(c *core.Ctx) {
 	var raceDepth, raceReps int
 	var raceReserve time.Duration
 	if c.Quick() {
-		phases = []phase{{1, 2, 2}, {2, 2, 2}, {3, 1, 1}}
-		raceDepth, raceReps, raceReserve = 2, 5, 25*time.Second
+		phases = []phase{{"full", 1, 2, 2}, {"full", 2, 2, 2}, {"full", 3, 1, 1}, {"core8", 4, 1, 1}, {"core6", 5, 1, 0}}
+		raceDepth, raceReps, raceReserve = 2, 3, 25*time.Second
 	} else {
-		phases = []phase{{1, 2, 3}, {2, 2, 3}, {3, 2, 2}, {4, 1, 1}}
+		phases = []phase{{"full", 1, 2, 3}, {"full", 2, 2, 3}, {"core8", 4, 1, 2}, {"core8", 5, 1, 2}, {"core6", 6, 1, 1}, {"full", 3, 2, 2}, {"full", 4, 1, 1}}
 		raceDepth, raceReps, raceReserve = 2, 100, 4*time.Minute
 	}
 	a := &agg{c: c, byDepth: map[string]int64{}, deathsByKey: map[string]int64{}, confirmedSig: map[string]int{}, cappedFirst: -1}
-	var plan []map[string]int
+	var plan []map[string]any
 	for _, ph := range phases {
-		plan = append(plan, map[string]int{"depth": ph.Depth, "documents": ph.Docs, "max_deviations": ph.MaxDev})
+		plan = append(plan, map[string]any{"alphabet": ph.Alpha, "depth": ph.Depth, "documents": ph.Docs, "max_deviations": ph.MaxDev, "histories": ipow(ph.alphabetSize(), ph.Depth)})
 		if c.Expired() {
-			c.Capped(fmt.Sprintf("phase depth=%d documents=%d not started (budget)", ph.Depth, ph.Docs))
+			c.Capped(fmt.Sprintf("phase alphabet=%s depth=%d documents=%d not started (budget)", ph.Alpha, ph.Depth, ph.Docs))
 			continue
 		}
 		tp := time.Now()
@@ -850,7 +867,7 @@ func replay(c *core.Ctx, raw json.RawMessage) error {
 	env := []string{"GOMAXPROCS=1"}
 	logPrefix := filepath.Join(workDir(), "race-logs", "replay")
 	if race {
-		cfg.Mode, cfg.Reps, cfg.Docs, cfg.Depth = "race", 300, 2, 1
+		cfg.Mode, cfg.Alpha, cfg.Reps, cfg.Docs, cfg.Depth = "race", "full", 300, 2, 1
 		test = "TestC23Race"
 		os.MkdirAll(filepath.Dir(logPrefix), 0o755)
 		old, _ := filepath.Glob(logPrefix + ".*")
